@@ -95,6 +95,7 @@ class Interp:
         self.collect_errors = False
         self.errors = []
         self.steps = 0
+        self.fill_lexical = []
         self.events = {"slot_filled": 0, "slot_default": 0, "slot_in_default": 0, "slot_in_fill": 0, "fill_in_loop": 0, "dynamic_name": 0, "inject_hit": 0, "inject_default": 0, "max_depth": 0}
 
     # ------------------------------------------------------------------ entry
@@ -125,6 +126,8 @@ class Interp:
             "via_defaultref": self.in_defaultref > 0,
             "captured_sites": [(base(c[0]), c[1]) for c in self.captured],
             "fill_aliases": {k: v for fr in self.alias_stack for k, v in fr.items() if isinstance(v, dict)},
+            # is the innermost fill being rendered lexically scoped (isolated mode / `only`)?
+            "lexical": self.fill_lexical[-1] if self.fill_lexical else None,
             # loops that dynamically enclose this read: on the evaluation stack, or captured for a fill being rendered
             "dyn_loop_sites": sorted({str(x) for x in self.loop_stack} | {str(c[1]) for c in self.captured if base(c[0]) == "for"}),
             "defaultref_env_cands": [(base(k), s) for e in self.defaultref_envs for k, s, vs in e if vs is not None and name in vs],
@@ -467,9 +470,11 @@ class Interp:
             cap = [] if c.site == "implicit" else [fr for fr in c.def_env if fr[0].split(":")[-1] in ("for", "leak")] + list(c.between)
             self.captured.extend(cap)
             self.alias_stack.append(aliases)
+            self.fill_lexical.append(self.mode == ISOLATED or bool(getattr(inst, "only", False)))
             try:
                 return self.eval(c.body, fenv, c.lex_owner, provs, top, depth, True, slot_stack + ("fill",))
             finally:
+                self.fill_lexical.pop()
                 self.alias_stack.pop()
                 del self.captured[len(self.captured) - len(cap) :]
         if flags.get("required"):
